@@ -11,6 +11,7 @@ import io
 import json
 import random
 import sys
+import time
 import traceback
 import types
 
@@ -24,16 +25,19 @@ TOOL = mon.PROFILER_ID
 DOCUMENTED = ("ParserError", "ConverterError", "XmlContextError", "XmlHandlerError")
 XSI = "http://www.w3.org/2001/XMLSchema-instance"
 
-BYTE_FAULTS = ["bitflip", "overwrite", "delete_range", "dup_range", "zero_range", "garbage_range", "truncate", "concat", "random_bytes", "insert_bytes"]
+BYTE_FAULTS = ["bitflip", "bitflip", "overwrite", "overwrite", "delete_range", "delete_range", "dup_range", "dup_range", "zero_range", "garbage_range", "garbage_range", "truncate", "truncate", "truncate", "concat", "concat",
+               "random_bytes", "random_bytes", "insert_bytes", "insert_bytes", "pad_truncate", "pad_only"]
+BOUNDARIES = [255, 256, 257, 1023, 1024, 1025, 4095, 4096, 4097, 8191, 8192, 8193, 16383, 16384, 16385, 32767, 32768, 32769, 65535, 65536, 65536, 65537, 131072]
 XML_STRUCT_FAULTS = [
+    "text_corrupt", "text_corrupt", "text_corrupt", "attr_corrupt", "attr_corrupt", "attr_corrupt",
     "el_delete", "el_dup", "el_retag", "el_reorder", "el_move", "text_corrupt", "attr_corrupt", "attr_delete", "attr_add",
     "child_in_simple", "xsi_type_bad", "xsi_type_empty", "xsi_type_unbound", "xsi_nil_true", "xsi_nil_false", "undeclared_prefix",
-    "wrong_root", "dup_attr", "prolog_encoding", "prolog_doctype", "ns_change", "xsi_type_class", "xsi_type_class", "xsi_other_attr", "el_dup_many", "nest_self", "text_long", "attr_many",
+    "wrong_root", "dup_attr", "prolog_encoding", "prolog_doctype", "ns_change", "xsi_type_class", "xsi_type_class", "xsi_type_class_empty", "xsi_other_attr", "el_dup_many", "nest_self", "text_long", "attr_many",
 ]
-JSON_STRUCT_FAULTS = ["key_delete", "key_rename", "value_junk", "list_wrap", "list_unwrap", "key_add", "list_grow", "nest_value"]
+JSON_STRUCT_FAULTS = ["value_text", "value_text", "value_text", "key_delete", "key_rename", "value_junk", "list_wrap", "list_unwrap", "key_add", "list_grow", "nest_value"]
 XSI_TYPES = ["nosuchtype", "xs:nosuch", "item", "dog", "xs:int", "xs:QName", "xs:date", "xs:hexBinary", "xs:base64Binary", "xs:boolean", "xs:duration", "xs:dateTime", "xs:gYear",
              "xs:decimal", "xs:float", "xs:NMTOKENS", "xs:anyURI", "xs:NOTATION", "xs:time", "xs:unsignedByte", "xs:anyType", "xs:anySimpleType", "xs:string", "xs:language", "xs:IDREFS"]
-JUNK_TEXT = ["p:", ":x", "xs:", "xml:lang", "99999999-01-01", "2020-01-01+14:00", "2020-01-01-14:01", "-2020-01-01", "2020-01-01T24:00:00", "2020-01-01T23:59:60", "P1Y-2M", "1e-400", "0" * 400, "-", "+", "-", "1_000", "0x1", "Infinity", "nan", "1e400", " 5 ", "TRUE", "true ", "-P", "P1Y2M3DT", "PT", "2020-01-01T00:00:00+15:00", "0000-01-01", "2020-02-30", "12:00:00.1234567890123", "--02-30", "-0", ".", "1.", "1e", "٣", "٣.٥",
+JUNK_TEXT = ["1E+600000000", "1E+999999999999", "-1E-600000000", "9" * 5000, "1" + "0" * 4000 + ".5", "p:", ":x", "xs:", "xml:lang", "99999999-01-01", "2020-01-01+14:00", "2020-01-01-14:01", "-2020-01-01", "2020-01-01T24:00:00", "2020-01-01T23:59:60", "P1Y-2M", "1e-400", "0" * 400, "-", "+", "-", "1_000", "0x1", "Infinity", "nan", "1e400", " 5 ", "TRUE", "true ", "-P", "P1Y2M3DT", "PT", "2020-01-01T00:00:00+15:00", "0000-01-01", "2020-02-30", "12:00:00.1234567890123", "--02-30", "-0", ".", "1.", "1e", "٣", "٣.٥",
              "", " ", "abc", "-1", "1e999", "NaN", "2020-13-45", "true1", "99999999999999999999999999", "0x10", "p:undeclared", "{", "{urn:x}y", "١٢٣", "1 2 3", "--", "P", "24:00:00", "x" * 300, "\t\n", "1.5.5", "+", "é"]
 JUNK_JSON = [{"qname": "a", "type": None, "value": {"qname": "b", "type": None, "value": 1}}, {"qname": "a", "type": "{urn:x}dog", "value": [1]}, [None, None], {"": 1}, [{"": {}}], 1e308 * 10, -0.0,
              None, True, 0, -1, 1.5, 1e400, "", "abc", [], [[]], [1, [2]], {}, {"a": 1}, {"qname": "q", "type": None, "value": 1}, {"qname": "q", "text": None, "tail": None, "children": [], "attributes": {}}, [None], "9" * 40, {"value": {}}]
@@ -97,6 +101,8 @@ def gen_fault(rng, decoder, data_len):
         f.update(sep=rng.choice(["", "\n", " "]))
     elif k == "random_bytes":
         f.update(len=rng.choice([0, 1, 2, 5, 16, 64, 256]), seed=rng.randrange(1 << 16), ascii=rng.random() < 0.5)
+    elif k in ("pad_truncate", "pad_only"):
+        f.update(size=rng.choice(BOUNDARIES), where=rng.choice(["comment", "space", "text"]), cut=rng.choice([0, 0, 1, -1, 7]))
     elif k == "insert_bytes":
         f.update(off=rng.randrange(n + 1), text=rng.choice(["<", ">", "&", "&#0;", "&nope;", "<!--", "]]>", "<?x", "\x00", "\xff\xfe", '"', "'", "</x>", "<a>", "{", "}", "[", ",", "\\u12", "\\", "\ud800".encode("utf-8", "surrogatepass").decode("latin-1")]))
     elif k in XML_STRUCT_FAULTS or k in JSON_STRUCT_FAULTS:
@@ -143,6 +149,23 @@ def apply_byte_fault(data, f, other=b""):
         return data + f["sep"].encode() + (other or data)
     if k == "random_bytes":
         return _rand_bytes(f["seed"], f["len"], f.get("ascii", False))
+    if k in ("pad_truncate", "pad_only"):
+        # grow the document with harmless padding so that it crosses / ends exactly at a block boundary of
+        # whatever reads it, then (pad_truncate) cut it at that boundary: still not well-formed
+        size = f["size"]
+        want = size * 2 if k == "pad_truncate" else size
+        i = data.rfind(b"</") if data.lstrip()[:1] == b"<" else data.rfind(b"}")
+        if i <= 0:
+            return data
+        need = max(0, want - len(data))
+        if data.lstrip()[:1] == b"<":
+            pad = {"comment": b"<!--" + b"x" * max(0, need - 7) + b"-->", "space": b" " * need, "text": b" " * need}[f["where"]] if need else b""
+        else:
+            pad = b" " * need
+        grown = data[:i] + pad + data[i:]
+        if k == "pad_only":
+            return grown
+        return grown[: max(1, size + f["cut"])]
     if k == "insert_bytes":
         o = f["off"] % (len(data) + 1)
         return data[:o] + f["text"].encode("latin-1", "replace") + data[o:]
@@ -251,16 +274,23 @@ def apply_xml_struct_fault(data, f):
                 root = new_root
                 el = _elements(root)[idx]
             el.set("{%s}type" % XSI, XSI_TYPES[f["val"] % len(XSI_TYPES)])
-        elif k == "xsi_type_class":
-            if not Store.qnames or el.getparent() is None:
+        elif k in ("xsi_type_class", "xsi_type_class_empty"):
+            if not Store.qnames:
                 return data, False
             ns, local = Store.qnames[f["val"] % len(Store.qnames)]
-            new_el = etree.Element(el.tag, attrib=dict(el.attrib), nsmap=dict(el.nsmap or {}, xtp=ns))
-            new_el.text, new_el.tail = el.text, el.tail
-            for child in list(el):
-                new_el.append(child)
+            empty = k == "xsi_type_class_empty"
+            if empty and f["idx2"] % 2:
+                el = root  # an unrelated existing class named on the document element itself
+            new_el = etree.Element(el.tag, attrib={} if empty else dict(el.attrib), nsmap=dict(el.nsmap or {}, xtp=ns))
+            new_el.text, new_el.tail = (None if empty else el.text), el.tail
+            if not empty:
+                for child in list(el):
+                    new_el.append(child)
             new_el.set("{%s}type" % XSI, "xtp:" + local)
-            el.getparent().replace(el, new_el)
+            if el.getparent() is None:
+                root = new_el
+            else:
+                el.getparent().replace(el, new_el)
         elif k == "xsi_other_attr":
             el.set("{%s}%s" % (XSI, ["foo", "schemaLocation", "noNamespaceSchemaLocation", "Type"][f["val"] % 4]), val)
         elif k == "xsi_type_empty":
@@ -332,6 +362,12 @@ def apply_json_struct_fault(value, f):
             return _set(value, path, junk), True
         if k == "list_wrap":
             return _set(value, path, [_get(value, path)]), True
+        if k == "value_text":
+            # a string leaf replaced by one of the lexical junk values (typed value corruption, JSON side)
+            leaves = [p for p in paths if isinstance(_get(value, p), (str, int, float)) and not isinstance(_get(value, p), bool)]
+            if not leaves:
+                return value, False
+            return _set(value, leaves[f["idx"] % len(leaves)], JUNK_TEXT[f["val"] % len(JUNK_TEXT)]), True
         if k == "list_grow":
             cur = _get(value, path)
             if isinstance(cur, list) and cur:
@@ -385,7 +421,7 @@ def gen_case(seed):
     chunks = None
     if decoder != "dict" and rng.random() < 0.6:
         chunks = [rng.choice([1, 1, 2, 3, 4, 7, 16, 61, 64, 512]) for _ in range(rng.choice([1, 2, 3, 5]))]
-    cfg = rng.choice(["default", "default", "default", "lenient", "lenient", "strictattr", "strictattr", "strictconv", "strictconv", "xinclude", "loaddtd"])
+    cfg = rng.choice(["default", "default", "default", "lenient", "lenient", "strictattr", "strictattr", "strictconv", "strictconv", "xinclude", "loaddtd", "factory", "factory"])
     case = {"seed": seed, "decoder": decoder, "doc": name, "faults": faults, "chunks": chunks, "cfg": cfg}
     if rng.random() < 0.08:
         case["noclass"] = True  # the target class is located from the document
@@ -575,6 +611,7 @@ def run_case(case, context, meter, base_steps):
     budget = int(20 * base_steps.get(key, 2000) * growth) + 20000
     out = {"landed": landed, "budget": budget, "growth": growth}
     reader = None
+    cpu0 = time.process_time()
     meter.start(budget)
     try:
         with warnings.catch_warnings():
@@ -601,6 +638,13 @@ def run_case(case, context, meter, base_steps):
         out["outcome"] = "budget"
         out["detail"] = str(e)
         out["sig"] = ["budget", dec]
+    except MemoryError as e:
+        steps = meter.stop()
+        out["outcome"] = "leak"
+        out["exc"] = "builtins.MemoryError"
+        out["frame"] = innermost_xsdata_frame(e.__traceback__)
+        out["sig"] = ["leak", dec, "builtins.MemoryError", out["frame"]]
+        out["detail"] = "allocation failed under the address-space limit of the simulated process"
     except RecursionError as e:
         steps = meter.stop()
         out["outcome"] = "leak"
@@ -623,6 +667,7 @@ def run_case(case, context, meter, base_steps):
             out["sig"] = ["leak", dec, f"{mod}.{name}", out["frame"]]
             out["detail"] = str(e)[:300]
     out["steps"] = steps
+    out["cpu"] = time.process_time() - cpu0
     out["consumed"] = reader.pos if reader is not None else None
     if dec in ("xml-native", "xml-tree-native") and out["outcome"] == "instance":
         if not wellformed_judge(payload):
@@ -634,7 +679,7 @@ def run_case(case, context, meter, base_steps):
     return out
 
 
-def calibrate_key(key, context, meter, base, dropped):
+def calibrate_key(key, context, meter, base, dropped, base_cpu=None):
     """Steps of the fault-free parse for (decoder, doc, cfg); a document that does not yield an instance is dropped."""
     dec, name, cfg = key
     case = {"decoder": dec, "doc": name, "faults": [], "chunks": None, "cfg": cfg.split("/")[0]}
@@ -643,6 +688,10 @@ def calibrate_key(key, context, meter, base, dropped):
     out = run_case(case, context, meter, {key: 10**7})
     if out["outcome"] == "instance":
         base[key] = out["steps"]
+        if base_cpu is not None:
+            # second, warm execution: the first one pays for metadata building
+            again = run_case(case, context, meter, {key: 10**7})
+            base_cpu[key] = min(out["cpu"], again["cpu"])
     else:
         dropped[key] = out["outcome"]
 
@@ -664,15 +713,22 @@ def run_batch_cases(cases, emit):
 
     core.child_init()
     sys.setrecursionlimit(3000)
+    try:
+        import resource
+
+        resource.setrlimit(resource.RLIMIT_AS, (6 << 30, 6 << 30))  # failing allocations surface as MemoryError, not as a dead machine
+    except Exception:
+        pass
     context = XmlContext()
     meter = StepMeter(runtime_codes())
     meter.install()
     base, dropped = {}, {}
-    summary = {"cases": 0, "outcomes": {}, "by_fault": {}, "fired": {}, "viol": [], "max_ratio": 0.0, "nontrivial": set(), "skipped": 0, "dropped": 0, "steps": 0, "wf_rejects": 0, "native_rejected_malformed": 0}
+    base_cpu_table = {}
+    summary = {"max_cpu": 0.0, "cases": 0, "outcomes": {}, "by_fault": {}, "fired": {}, "viol": [], "max_ratio": 0.0, "nontrivial": set(), "skipped": 0, "dropped": 0, "steps": 0, "wf_rejects": 0, "native_rejected_malformed": 0}
     for i, case in enumerate(cases):
         key = case_key(case)
         if key not in base and key not in dropped:
-            calibrate_key(key, context, meter, base, dropped)
+            calibrate_key(key, context, meter, base, dropped, base_cpu_table)
         if key not in base:
             summary["skipped"] += 1
             continue
@@ -698,6 +754,13 @@ def run_batch_cases(cases, emit):
             summary["wf_rejects"] += 1
             if case["decoder"] in ("xml-native", "xml-tree-native") and oc != "accepted_malformed":
                 summary["native_rejected_malformed"] += 1
+        base_cpu = base_cpu_table.get(key, 0.001)
+        if "sig" not in out and out["cpu"] > 1.0 and out["cpu"] > 300 * max(base_cpu, 0.0005) * out.get("growth", 1.0):
+            out["sig"] = ["slow", case["decoder"]]
+            out["detail"] = f"{out['cpu']:.2f}s of CPU for a {out.get('growth', 1.0):.1f}x sized variant of a document that takes {base_cpu * 1000:.2f}ms"
+            out["outcome"] = "slow"
+        if out["cpu"] > summary["max_cpu"]:
+            summary["max_cpu"] = out["cpu"]
         if "sig" in out:
             summary["viol"].append({"case": case, "out": {k: v for k, v in out.items() if k != "wf"}, "sig": out["sig"]})
     summary["nontrivial"] = sorted(summary["nontrivial"])
